@@ -118,7 +118,8 @@ def build_configs(tier, seed):
     cfgs = []
 
     def add(name, fn=adaptive_config, **kw):
-        opts = dict(timeout=kw.pop('timeout', 600 if quick else 3000), maxpaths=kw.pop('maxpaths', 128 if quick else 2048))
+        opts = dict(timeout=kw.pop('timeout', 600 if quick else 3000), maxpaths=kw.pop('maxpaths', 128 if quick else 2048),
+                    feas_ms=(1500, 3000) if quick else (3000, 20000), follow_nominal=kw.pop('nominal_path', False))
         cfgs.append(dict(name=name, fn=fn, kw=kw, opts=opts))
     # lines: every marked subset of a 3-cell mesh, two numberings, subdomains on every cell subset
     sub3 = {'s%d' % i: s for i, s in enumerate(subsets(3))}
@@ -132,21 +133,21 @@ def build_configs(tier, seed):
             add('tri2/numbering%d/marked=%s' % (pi, ''.join(map(str, mk))), mesh='tri2', pt=pt, marked=mk, sub=sub2, bnd={'b': [0, 1]})
     # 3-4 cell meshes with G(2)/G(4) to bound the number of paths
     for mk in (subsets(3) if not quick else [[0], [1, 2], [0, 1, 2]]):
-        add('tri3fan/free=1,4/marked=%s' % ''.join(map(str, mk)), mesh='tri3fan', marked=mk, free=[1, 4], sub={'s0': [0], 's12': [1, 2]})
+        add('tri3fan/free=1,4/marked=%s' % ''.join(map(str, mk)), mesh='tri3fan', marked=mk, free=None if quick else [1, 4], nominal_path=quick, sub={'s0': [0], 's12': [1, 2]})
     if not quick:
         for mk in subsets(4)[::2]:
             add('tri4patch/free=4/marked=%s' % ''.join(map(str, mk)), mesh='tri4patch', marked=mk, free=[4], sub={'s0': [0], 's13': [1, 3]})
     # histories on the 2-cell mesh
     for hist in ([[0], [0]], ['u', [1]], [[1], 'u']) + (() if quick else ([[0, 1], [2]], [[0], [3], [1]])):
-        add('tri2/free=0,3/history=%s' % str(hist).replace(' ', ''), mesh='tri2', marked=None, free=[0, 3], history=hist, sub=sub2,
-            maxpaths=256 if quick else 4096)
+        add('tri2/free=0,3/history=%s' % str(hist).replace(' ', ''), mesh='tri2', marked=None, free=None if quick else [0, 3], nominal_path=quick,
+            history=hist, sub=sub2, maxpaths=256 if quick else 4096)
     for hist in ([[0], [1]], ['u', [0, 3]], [[2], 'u']):
         add('line3perm/history=%s' % str(hist).replace(' ', ''), mesh='line3perm', marked=None, history=hist, sub=sub3)
     # tetrahedra: longest-edge bisection with closure; one free vertex bounds the orderings
     for mk in ([[0], [1], [0, 1]]):
-        add('tet2/free=4/marked=%s' % ''.join(map(str, mk)), mesh='tet2', marked=mk, free=[4], sub={'s0': [0], 's1': [1]}, bnd={'b': [0]},
-            timeout=1500 if quick else 3000, maxpaths=64 if quick else 1024)
-    add('tet1/free=3/marked=0', mesh='tet1', marked=[0], free=[3], sub={'s0': [0]}, timeout=1500 if quick else 3000)
+        add('tet2/free=4/marked=%s' % ''.join(map(str, mk)), mesh='tet2', marked=mk, free=None if quick else [4], nominal_path=quick, sub={'s0': [0], 's1': [1]}, bnd={'b': [0]},
+            timeout=600 if quick else 3000, maxpaths=64 if quick else 1024)
+    add('tet1/free=3/marked=0', mesh='tet1', marked=[0], free=None if quick else [3], nominal_path=quick, sub={'s0': [0]}, timeout=600 if quick else 3000)
     if not quick:
         add('tet1/marked=0', mesh='tet1', marked=[0], sub={'s0': [0]}, timeout=3000, maxpaths=1024)
         add('tet2/free=4/history', mesh='tet2', marked=None, free=[4], history=[[0], [1]], sub={'s0': [0]}, timeout=3000)
